@@ -7,7 +7,7 @@ MANIFEST.json.
 
 PROPS = {}
 NOT_APPLICABLE = {}
-HOOK_COMMITS = ["c94b8c9", "c3c8497", "5a76809", "8c6f5e6", "6f05708", "4b3aea6", "d4d37fd", "93cafe8", "b0120f9", "11f2416"]
+HOOK_COMMITS = ["c94b8c9", "c3c8497", "5a76809", "8c6f5e6", "6f05708", "4b3aea6", "d4d37fd", "93cafe8", "b0120f9", "11f2416", "202614f"]
 
 
 def prop(pid, **kw):
@@ -468,6 +468,11 @@ prop("C06",
      level_text="Exhaustive over short decision sequences, exploration over random ones, with an offline trace predicate over the "
                 "recorded event log of the real principal and target code.",
      level_note="A nil approval callback means 'no approval configured' (the code then accepts everything and a unit test pins "
-                "that); such runs are outside the statement. hopclient's wrapper around the callback is not exercised.",
+                "that); such runs are outside the statement. A second, full-stack family (real time, loopback UDP, a scratch "
+                "directory) drives the real hopclient.HopClient as principal - its approval wrapper with and without an "
+                "interactive session's ExecTube, its client configuration loaded from a file (also with InsecureSkipVerify), the "
+                "real transport handshake with the target through the unreliable proxy tube, in which the first request's "
+                "callback runs - against the real hopserver.HopServer as target, with the same oracle plus 'nothing is stored on "
+                "the target that the callback did not accept'.",
      technique="runtime trace monitoring (event log + offline predicate) of the real principal/target instances over in-memory pipes",
      assumptions=["set-up callback invokes the verification callback, as hopclient's setupTargetClient does"])
